@@ -391,6 +391,13 @@ func evalBool(p *Program, info *types.Info, e ast.Expr, sigma map[string]bool) (
 				return (a == b) == (t.Op == token.EQL), ka && kb
 			}
 		}
+	case *ast.Ident:
+		// a boolean local defined once by a condition is evaluated as that condition (flagDefOf, emit.go)
+		if def := flagDefOf(info, t); def != nil {
+			if v, k := evalBool(p, info, def, sigma); k {
+				return v, true
+			}
+		}
 	case *ast.CallExpr:
 		// accessor method with a single `return <expr>` body and no arguments
 		if len(t.Args) == 0 && p != nil {
